@@ -254,8 +254,9 @@ static size_t _GD_DoRaw(DIRFILE *restrict D, gd_entry_t *restrict E, off64_t s0,
   /* We need to seek if we zero padded to get the file->pos in the right place
    */
   if (ns > 0 || zero_pad)
-    /* This will open the file if it's not open already */
-    if (_GD_Seek(D, E, s0, GD_FILE_READ)) {
+    /* This will open the file if it's not open already; a window lying wholly
+     * before sample zero is all padding: leave the file at its start */
+    if (_GD_Seek(D, E, (s0 < 0) ? 0 : s0, GD_FILE_READ)) {
       free(databuffer);
       dreturn("%i", 0);
       return 0;
